@@ -420,6 +420,29 @@ Allowed_C14(hs, pre, e) ==
 NT_C14(hs, pre, e) == IsOp(e) /\ pre.sk.on /\ (~IsSync(hs) \/ ReadsApplied(e) > 0)
 
 -----------------------------------------------------------------------------
+(* C15  (direct clause) contains_key and iteration neither reset idle timers, *)
+(* nor change recency, nor feed the popularity estimator.  Judged on the      *)
+(* snapshots around the call.  On the single-threaded cache contains_key may  *)
+(* purge and evict (every call does that first): survivors are compared.  On  *)
+(* the concurrent cache the call is judged when no maintenance is pending, so *)
+(* that nothing it might apply is mistaken for its own effect.                *)
+
+OrderOfCommon(pre, post) ==
+    LET both == {k \in Range(pre.ao) : InSeq(post.ao, k)}
+    IN SelectSeq(pre.ao, LAMBDA k : k \in both) = SelectSeq(post.ao, LAMBDA k : k \in both)
+
+Allowed_C15(hs, pre, e) ==
+    (e.ev \in {"Contains", "Iter"} /\ (~IsSync(hs) \/ Quiescent(pre))) =>
+        /\ e.snap.fq = pre.fq                                         \* estimator untouched
+        /\ IsSync(hs) => (e.snap.rlen = 0 /\ e.snap.wlen = 0)          \* nothing recorded for later
+        /\ \A i \in DOMAIN e.snap.res :                                \* idle timers untouched
+              LET r == e.snap.res[i] IN
+              r.k \in KeysIn(pre.res) => r.la = Ent(pre.res, r.k).la
+        /\ OrderOfCommon(pre, e.snap)                                  \* recency untouched
+        /\ KeysIn(e.snap.res) \subseteq KeysIn(pre.res)
+NT_C15(hs, pre, e) == e.ev \in {"Contains", "Iter"} /\ pre.res # <<>>
+
+-----------------------------------------------------------------------------
 (* C16  iteration yields every live entry exactly once                       *)
 
 Allowed_C16(hs, pre, e) ==
@@ -511,7 +534,7 @@ HUpdate(P, hs, pre, e) ==
 (* All sequential monitors together                                          *)
 
 Props == {"C01", "C03", "C04", "C05", "C06", "C07", "C08", "C10", "C11", "C12", "C13",
-          "C14", "C16"}
+          "C14", "C15", "C16"}
 
 AllowedBy(p, hs, pre, e) ==
     CASE p = "C01" -> Allowed_C01(hs, pre, e)
@@ -526,6 +549,7 @@ AllowedBy(p, hs, pre, e) ==
       [] p = "C12" -> Allowed_C12(hs, pre, e)
       [] p = "C13" -> Allowed_C13(hs, pre, e)
       [] p = "C14" -> Allowed_C14(hs, pre, e)
+      [] p = "C15" -> Allowed_C15(hs, pre, e)
       [] p = "C16" -> Allowed_C16(hs, pre, e)
 
 NonTrivialBy(p, hs, pre, e) ==
@@ -541,6 +565,7 @@ NonTrivialBy(p, hs, pre, e) ==
       [] p = "C12" -> NT_C12(hs, pre, e)
       [] p = "C13" -> NT_C13(hs, pre, e)
       [] p = "C14" -> NT_C14(hs, pre, e)
+      [] p = "C15" -> NT_C15(hs, pre, e)
       [] p = "C16" -> NT_C16(hs, pre, e)
 
 =============================================================================
